@@ -300,6 +300,7 @@ fn op_kind(o: &Op) -> u8 {
         Op::SetChunk { .. } => 126,
         Op::Drain => 127,
         Op::Forget => 128,
+        Op::SetAlt { on } => 129 + *on as u8,
     }
 }
 
@@ -403,7 +404,7 @@ fn tune(prop: &str, c: &mut Cfg, p: &mut GenProfile, r: &mut Rng) {
             p.w_peerpub = 25;
         }
         "C15" => {
-            c.ka = *r.pick(&[0u16, 5, 10, 60]);
+            c.ka = *r.pick(&[0u16, 5, 10, 60, 21846, 65535]);
             c.pingresp_to_ms = *r.pick(&[0u64, 3000, 5000]);
             p.w_timer = 25;
             p.w_ping = 12;
@@ -510,7 +511,12 @@ fn merge_solo_stats(o: &mut Outcome, s: &Solo) {
 
 /// draw a history with the solo generator (no Drain at the end)
 fn gen_history(cfg: &Cfg, prof: &GenProfile, rng: &mut Rng, len: u64, adversary: bool) -> (Solo, Vec<Op>) {
+    gen_history2(cfg, prof, rng, len, adversary, false)
+}
+
+fn gen_history2(cfg: &Cfg, prof: &GenProfile, rng: &mut Rng, len: u64, adversary: bool, read_past_close: bool) -> (Solo, Vec<Op>) {
     let mut s = Solo::new(cfg.clone());
+    s.w.read_past_close = read_past_close;
     let mut ops = vec![];
     for _ in 0..len {
         let mut op = solo::gen_op(&s, rng, prof);
@@ -536,15 +542,19 @@ fn gen_c09(rng: &mut Rng, tier: Tier, run: u64) -> (Case, Outcome) {
     prof.w_pub = 20;
     prof.w_misc = 2;
     let len = rng.range(4, if tier == Tier::Quick { 30 } else { 60 });
-    let (_, ops) = gen_history(&cfg, &prof, rng, len, run % 2 == 0);
+    let (_, ops) = gen_history2(&cfg, &prof, rng, len, run % 2 == 0, true);
     let a = twin::run_reference(&cfg, &ops);
     let mut o = Outcome { shape: h64(&ops.iter().map(op_kind).collect::<Vec<_>>()), ..Default::default() };
     merge_solo_stats(&mut o, &a);
+    if a.w.stats.probes.get("c09_bad_remaining_length").is_some() && a.w.stats.frames > 0 {
+        o.stats.hit("c09_frames_after_overlong_length");
+    }
     o.log = a.w.log.clone();
     if a.w.failed() {
         // the reference run itself trips a monitor: report under that monitor's properties
+        // (kept as a Chunk case: its replay reads past close requests like this run did)
         o.viol = a.w.viol.clone();
-        return (Case::Solo { cfg, ops }, o);
+        return (Case::Chunk { cfg, ops, burst: 0, cuts: vec![] }, o);
     }
     let bl = twin::bursts(a.w.calls.as_ref().unwrap());
     if bl.is_empty() {
@@ -615,7 +625,8 @@ fn fork_outcome(kind: ForkKind, cfg: &Cfg, ops: &[Op], cont: &[Op], mangle: Expo
         }
         ForkKind::Fresh => {
             // the comparison is about a NEW session: the script starts with its handshake
-            if !(matches!(cont.first(), Some(Op::Connect { .. })) && matches!(cont.get(1), Some(Op::Connack { sp: false, rc: 0 }))) {
+            let skip = matches!(cont.first(), Some(Op::SetAlt { .. })) as usize;
+            if !(matches!(cont.get(skip), Some(Op::Connect { .. })) && matches!(cont.get(skip + 1), Some(Op::Connack { sp: false, rc: 0 }))) {
                 return Outcome::default();
             }
             let mut ha = ops.to_vec();
@@ -795,6 +806,11 @@ fn gen_c10(rng: &mut Rng, tier: Tier, run: u64) -> (Case, Outcome) {
     if rng.chance(1, 3) {
         cont = vec![Op::Connect { clean: false }, Op::Connack { sp: false, rc: 0 }];
         o.stats.hit("c10_new_session_by_session_not_present");
+    }
+    if rng.chance(1, 3) {
+        // the new connection announces nothing: whatever the old one negotiated must be gone
+        cont.insert(0, Op::SetAlt { on: true });
+        o.stats.hit("c10_new_connection_without_properties");
     }
     let sl = rng.range(3, 16);
     cont.extend(blind_script(&cfg, rng, sl));
